@@ -10,7 +10,7 @@ from .. import core, fm, km, mc, ref
 from ..core import Failure
 from .. import graphs
 
-NAMINGS = ['str', 'revint', 'tuple', 'mixed', 'strcollide', 'strlen', 'opaque', 'zigzag', 'numeq']
+NAMINGS = ['str', 'revint', 'tuple', 'mixed', 'strcollide', 'strlen', 'opaque', 'zigzag', 'numeq', 'fsets']
 CONTAINERS = ['list', 'set', 'tuple']
 ATOM_MAPS = [{'p': 'alpha_long_name', 'q': 'Zq'}, {'p': 'q', 'q': 'p'}, {'p': 'a b', 'q': 'x-1'},
              {'p': 'pp', 'q': 'p_'}, {'p': 'fairness', 'q': 'E'}, {'p': 'q', 'q': 'qq'},
